@@ -737,6 +737,19 @@ func runC15(c *core.Ctx, ck *Check) {
 					argv = nil
 				}
 			}
+			// transport encodings of the same argument (percent-encoding of the comparators only / of every non-alphanumeric
+			// byte / lower-case hex, HTML entities, \uXXXX escapes, '+' for blanks): a front end that "helpfully" decodes
+			// one of them answers where the library reports a parse failure
+			if len(argv) > 2 && r.IntN(5) == 0 {
+				enc := r.IntN(6)
+				all := r.IntN(2) == 0
+				for x := 2; x < len(argv); x++ {
+					if all || x == 2 {
+						argv[x] = transportEncode(argv[x], enc)
+					}
+				}
+				w.Count("transport_encoded_argvs", 1)
+			}
 			for x := range argv {
 				argv[x] = strings.ReplaceAll(argv[x], "\x00", "")
 			}
@@ -757,4 +770,64 @@ func runC15(c *core.Ctx, ck *Check) {
 			}
 		}
 	})
+}
+
+// transportEncode writes s in one of six transport encodings.
+func transportEncode(s string, enc int) string {
+	const ops = "<>=!*|~^, "
+	var b strings.Builder
+	for i := 0; i < len(s); i++ {
+		ch := s[i]
+		alnum := ch >= '0' && ch <= '9' || ch >= 'a' && ch <= 'z' || ch >= 'A' && ch <= 'Z'
+		isOp := strings.IndexByte(ops, ch) >= 0
+		switch enc {
+		case 0: // comparators only, upper-case hex
+			if isOp {
+				fmt.Fprintf(&b, "%%%02X", ch)
+			} else {
+				b.WriteByte(ch)
+			}
+		case 1: // every non-alphanumeric byte except the vers:scheme/ punctuation
+			if alnum || ch == ':' || ch == '/' || ch == '.' || ch == '-' {
+				b.WriteByte(ch)
+			} else {
+				fmt.Fprintf(&b, "%%%02X", ch)
+			}
+		case 2: // comparators only, lower-case hex
+			if isOp {
+				fmt.Fprintf(&b, "%%%02x", ch)
+			} else {
+				b.WriteByte(ch)
+			}
+		case 3: // HTML entities
+			switch ch {
+			case '<':
+				b.WriteString("&lt;")
+			case '>':
+				b.WriteString("&gt;")
+			case '&':
+				b.WriteString("&amp;")
+			case '|':
+				b.WriteString("&#124;")
+			default:
+				b.WriteByte(ch)
+			}
+		case 4: // \uXXXX for the comparators
+			if isOp {
+				fmt.Fprintf(&b, "\\u%04x", ch)
+			} else {
+				b.WriteByte(ch)
+			}
+		default: // form encoding: '+' for blank, the rest percent-encoded
+			switch {
+			case ch == ' ':
+				b.WriteByte('+')
+			case alnum || ch == '.' || ch == '-' || ch == ':' || ch == '/':
+				b.WriteByte(ch)
+			default:
+				fmt.Fprintf(&b, "%%%02X", ch)
+			}
+		}
+	}
+	return b.String()
 }
